@@ -164,6 +164,18 @@ func (x *zzExec) afterFault(i int, op zzOp, plan *faultdb.Plan, fired string, re
 				x.fail("C12", "acknowledged-but-incomplete/"+site, "%s was acknowledged although a storage call failed, and the running %s does not show its complete effect: %s", op, w.name, zzDiff(got, afterSnap[j]))
 			}
 		}
+		// ... under which public passphrase does it go on working? (keystores created from now on are
+		// keyed with it: the prior one after an error, the new one after an acknowledgement)
+		for j, w := range x.e.w {
+			want := before[j].PubPass
+			if res.err == nil {
+				want = afterM[j].PubPass
+			}
+			if len(want) > 0 && !bytes.Equal(w.kmc.pubPassphrase, want) {
+				x.fail("C12", zzIf(res.err != nil, "error-but-public-passphrase-changed/", "acknowledged-but-public-passphrase-unchanged/")+site,
+					"%s returned err=%v, but the running %s now works under another public passphrase than this outcome implies", op, res.err, w.name)
+			}
+		}
 		// ... and which private passphrase does it honour? (prior one after an error, new one after an acknowledgement)
 		for j, w := range x.e.w {
 			want := before[j].PrivPass
